@@ -120,6 +120,10 @@ def r2_census(rep, repo):
             ok = (file, name) in ITEM_FORKS
             how = 'reviewed item-level fork'
             fs = set().union(*[feats_of(p) for cfgs_ in v for p in cfgs_])
+            if not ok and kind == 'fn' and fs and any(f0 == file and feat in fs and (f0, sc0) not in seen_body for (f0, sc0, feat) in BODY_FORKS):
+                # the reviewed fork of this file on this feature is no longer inside a function body: it was moved into a pair of twin functions
+                ok = True
+                how = 'the reviewed body-level fork of this file, written as twin functions: ' + next(w for (f0, sc0, feat), w in BODY_FORKS.items() if f0 == file and feat in fs)
             if not ok and fs and all(f in CONFINED and file in CONFINED[f] for f in fs):
                 # private twins inside the feature's documented switch point: the module as a whole is compared across configurations (R3 / R3b / R3c)
                 ok = True
